@@ -220,6 +220,20 @@ static void map_op(vh_rng* r, struct cont* W, int i, char* opd, size_t cap) {
   int roll = (int)vh_below(r, 100);
   int key = (int)vh_below(r, MAPU);
   int64_t v = vh_range(r, 100, 999);
+  if (roll < 3) {
+    /* a key or a value the map's types refuse, for a key that is new or one that is present: the operation fails and
+       the map owns exactly what it owned -- no key or value comes to life in an entry that never enters the map */
+    int which = (int)vh_below(r, 2);     /* 0: the value is refused, 1: the key is refused */
+    var bk = which == 1 ? (var)$S("not a key") : MKEY(k, key);
+    var bv = which == 0 ? (var)$S("not a value") : MVAL(k, v);
+    snprintf(opd, cap, "%s#%d.set(%s, %s) refused%s", CKNAME[k->kind], i, which ? "a String" : "k", which ? "v" : "a String", which == 0 && k->present[key] ? " [key present]" : " [key new]");
+    var exc4 = NULL;
+    VH_CATCH(set(k->c, bk, bv), exc4);
+    if (exc4 == NULL) { vh_violation("C05:refused:wrong-typed-entry-accepted", "%s was accepted", opd); }
+    vh_count("refused_map_sets");
+    if (which == 0 && !k->present[key]) { vh_count("refused_map_sets_of_a_new_key_with_a_refused_value"); }
+    return;
+  }
   if (roll < 6) {
     /* fill phase: grow through several rehashes with many live elements */
     snprintf(opd, cap, "%s#%d.set x30", CKNAME[k->kind], i);
